@@ -426,6 +426,27 @@ Section Batch.
       | inl e => TmErr e d hs
       | inr (seq, blen) =>
           if seq <? expectSeq then TmErr ESeq d hs else
+          (* since the fix "decodeBatchToMem must reject a header whose sequence numbers leave the key range":
+             seq > keyMaxSeq || uint64(batchLen) > keyMaxSeq-seq *)
+          if (keyMaxSeq p <? seq) || (keyMaxSeq p - seq <? blen) then TmErr ESeq d hs else
+          let body := dropN bhl data in
+          match decode_loop (decode_fuel body) body (tomem_cb body seq blen) 0%Z 0%Z (mktm d hs 0%Z) with
+          | DOk st =>
+              if (tm_n st =? Z.of_N blen)%Z then TmOk seq blen (tm_db st) (tm_hs st)
+              else TmErr (ERecLenMismatch (Z.of_N blen) (tm_n st)) (tm_db st) (tm_hs st)
+          | DErr e st => TmErr e (tm_db st) (tm_hs st)
+          | DPanic => TmPanic
+          | DFuel => TmFuel
+          end
+      end.
+
+    (* decodeBatchToMem BEFORE that fix (no test of the header against keyMaxSeq): kept only as the witness of
+       the pre-fix behaviour (Props/C01.v C01_replay_seq_range_refuted) *)
+    Definition decode_to_mem_old (data : bytes) (expectSeq : N) (d : MemDB.db) (hs : list N) : tmres :=
+      match decode_header data with
+      | inl e => TmErr e d hs
+      | inr (seq, blen) =>
+          if seq <? expectSeq then TmErr ESeq d hs else
           let body := dropN bhl data in
           match decode_loop (decode_fuel body) body (tomem_cb body seq blen) 0%Z 0%Z (mktm d hs 0%Z) with
           | DOk st =>
@@ -443,6 +464,13 @@ Section Batch.
     Inductive rsres := RsOk (d : MemDB.db) (hs : list N) (dbseq : N) | RsFail (e : berr) | RsPanic | RsFuel.
     Definition recover_step (strict : bool) (data : bytes) (dbseq : N) (d : MemDB.db) (hs : list N) : rsres :=
       match decode_to_mem data dbseq d hs with
+      | TmOk seq blen d' hs' => RsOk d' hs' (u64 (seq + blen))
+      | TmErr e d' hs' => if strict then RsFail e else RsOk d' hs' dbseq
+      | TmPanic => RsPanic
+      | TmFuel => RsFuel
+      end.
+    Definition recover_step_old (strict : bool) (data : bytes) (dbseq : N) (d : MemDB.db) (hs : list N) : rsres :=
+      match decode_to_mem_old data dbseq d hs with
       | TmOk seq blen d' hs' => RsOk d' hs' (u64 (seq + blen))
       | TmErr e d' hs' => if strict then RsFail e else RsOk d' hs' dbseq
       | TmPanic => RsPanic
